@@ -156,7 +156,7 @@ fn cmp_buf(what: &str, got: &Buffer, want: &[bool]) -> CaseResult {
 }
 
 // -------------------------------------------------------------------------------------------
-fn sub_boolean_buffer(c: &mut Case, grid: bool) -> CaseResult {
+pub fn sub_boolean_buffer(c: &mut Case, grid: bool) -> CaseResult {
     let g = geo(c, grid);
     let t = &mut c.tape;
     let slack1 = t.below(3);
@@ -375,7 +375,7 @@ fn sub_boolean_buffer(c: &mut Case, grid: bool) -> CaseResult {
 
 // -------------------------------------------------------------------------------------------
 /// in-place / destination-writing operations: whole destination image compared
-fn sub_inplace(c: &mut Case, grid: bool) -> CaseResult {
+pub fn sub_inplace(c: &mut Case, grid: bool) -> CaseResult {
     let g = geo(c, grid);
     let t = &mut c.tape;
     let len = g.len;
@@ -443,7 +443,7 @@ fn sub_inplace(c: &mut Case, grid: bool) -> CaseResult {
 }
 
 // -------------------------------------------------------------------------------------------
-fn sub_iterators(c: &mut Case, grid: bool) -> CaseResult {
+pub fn sub_iterators(c: &mut Case, grid: bool) -> CaseResult {
     let g = geo(c, grid);
     let len = g.len;
     let sl = c.tape.below(3);
